@@ -300,3 +300,18 @@ Lemma max_index_fast_eq q : max_index_fast q = max_index q.
 Proof. unfold max_index_fast, max_index. rewrite dollar_indices_fast_eq. reflexivity. Qed.
 Lemma has_dollar_index_fast_eq q : has_dollar_index_fast q = has_dollar_index q.
 Proof. unfold has_dollar_index_fast, has_dollar_index. rewrite dollar_indices_fast_eq. reflexivity. Qed.
+
+Lemma count_qmark_le_len q : count_qmark q <= lenZ q.
+Proof.
+  unfold count_qmark, lenZ. induction q as [|b r IH]; cbn [filter length]; [lia|].
+  destruct (Byte.eqb b x3f); cbn [length]; lia.
+Qed.
+
+(* the geometric growth of the appended result (at most twice the final size, 4 bytes
+   per entry) stays within the budget the allocation oracle allows *)
+Lemma pp_alloc_within_budget q : 2 * 4 * pp_raw q <= alloc_budget q.
+Proof.
+  pose proof (pp_work q) as W. pose proof (count_qmark_le_len q) as L.
+  assert (0 <= lenZ q) by (unfold lenZ; lia).
+  unfold alloc_budget, max_args in *. lia.
+Qed.
